@@ -176,3 +176,7 @@ func SymLenBytes(name string, max int) []byte {
 	Assume(n >= 0 && n <= max)
 	return make([]byte, n)
 }
+
+// SameF64 reports whether two float64 values are the same value (bit pattern;
+// NaN equals NaN). Under the executor identical terms fold to true.
+func SameF64(a, b float64) bool { return math.Float64bits(a) == math.Float64bits(b) }
